@@ -11,9 +11,9 @@ Variable cfgU cfgS : ccfg.
 Variable ann : bool.
 
 Hypothesis HU_gen : c_gen cfgU = true.
-Hypothesis HU_tuple : c_tuple cfgU = false.
+Hypothesis H_tuple : c_tuple cfgU = c_tuple cfgS.       (* a tuple needs a converter that expects tuples *)
+Hypothesis H_tuple_kw : c_tuple cfgS = true -> c_tuple_kw cfgS = true.   (* kw_only attributes passed by keyword *)
 Hypothesis HU_forbid : c_forbid cfgU = false.
-Hypothesis HS_tuple : c_tuple cfgS = false.
 Hypothesis HS_forbid : c_forbid cfgS = false.
 Hypothesis HS_recheck : c_recheck cfgS = true.
 Hypothesis HS_kw : c_kw_last cfgS = true.
@@ -300,6 +300,18 @@ Proof.
   destruct Hf as [Hf|Hf]; [subst; eauto|]. eapply IH; eauto. intros h Hh. apply Ho. now right.
 Qed.
 
+Lemma un_interp_tuple_handlers (V : Type) (hs : N -> V -> result V) l (i : inst V) tt :
+  un_interp_tuple V hs l i = Ok tt ->
+  forall f, In f l -> exists v w, assoc i (f_name f) = Some v /\ hs (f_name f) v = Ok w.
+Proof.
+  revert tt. induction l as [|g l IH]; intros tt H f Hf; [contradiction|]. cbn [un_interp_tuple] in H.
+  unfold getattr in H.
+  destruct (assoc i (f_name g)) as [v|] eqn:Ea; cbn [bind] in H; try discriminate.
+  destruct (hs (f_name g) v) as [w| |] eqn:Eh; cbn [bind] in H; try discriminate.
+  destruct (un_interp_tuple V hs l i) as [rest| |] eqn:Er; cbn [bind] in H; try discriminate.
+  destruct Hf as [Hf|Hf]; [subst; eauto|]. eapply IH; eauto.
+Qed.
+
 (* a value other than None never unstructures to None *)
 Lemma un_not_none : forall n t x u, rt_value E ann x t -> x <> VNone -> un n t x = Ok u -> u <> VNone.
 Proof.
@@ -319,8 +331,9 @@ Proof.
   - cbn [items_val bind] in Hu. destruct (un_pairs _ _ _); cbn [bind] in Hu; try discriminate. inversion Hu. discriminate.
   - contradiction.
   - destruct x; try contradiction; eapply IH; eassumption.
-  - match goal with H : e_class E c = Some _ |- _ => rewrite H in Hu end. cbn [inst_fields] in Hu. rewrite HU_tuple in Hu.
-    destruct (un_gen _ _ _ _ _ _ _); cbn [bind] in Hu; try discriminate. inversion Hu. discriminate.
+  - match goal with H : e_class E c = Some _ |- _ => rewrite H in Hu end. cbn [inst_fields] in Hu. destruct (c_tuple cfgU).
+    + destruct (un_interp_tuple _ _ _ _); cbn [bind] in Hu; try discriminate. inversion Hu. discriminate.
+    + destruct (un_gen _ _ _ _ _ _ _); cbn [bind] in Hu; try discriminate. inversion Hu. discriminate.
   - eapply IH; eassumption.
   - eapply IH; eassumption.
 Qed.
@@ -410,16 +423,38 @@ Proof.
     match goal with X : e_class E c = Some _ |- _ => rename X into Hc end.
     match goal with X : map fst i = _ |- _ => rename X into Hkeys end.
     match goal with X : Forall _ i |- _ => rename X into HF end.
-    rewrite Hc in Hu |- *. cbn [inst_fields] in Hu. rewrite HU_tuple in Hu. rewrite HS_tuple. unfold nov in *.
+    rewrite Hc in Hu |- *. cbn [inst_fields] in Hu. unfold nov in *.
     destruct (H_env c cd Hc) as (W & HA).
+    assert (A_init : forall f, In f (cd_fields cd) -> f_init f = true) by (intros f Hf; now destruct (HA f Hf)).
+    assert (A_conv : forall f, In f (cd_fields cd) -> f_conv f = false) by (intros f Hf; now destruct (HA f Hf)).
     assert (Ht : topt cfgU c = topt cfgS c) by (unfold topt; now rewrite HU_forbid, HS_forbid).
     rewrite Ht in Hu.
     match type of Hu with context [un_gen _ _ _ _ ?h _ _] => set (hs_u := h) in Hu end.
+    match goal with |- context [tpl_interp_dict _ _ ?h _ _] => set (hs_s := h) end.
+    pose (hu := fun nm v => match hs_u nm v with Ok w => w | _ => VNone end).
+    assert (H_inv' : forall f, In f (cd_fields cd) -> hs_u (f_name f) (aval val VNone i f) = Ok (hu (f_name f) (aval val VNone i f)) ->
+              hs_s (f_name f) (hu (f_name f) (aval val VNone i f)) = Ok (aval val VNone i f)).
+    { intros f Hf Eh. pose proof (vals_ok val VNone (cd_fields cd) i Hkeys f Hf) as Ea. apply assoc_in in Ea.
+      rewrite Forall_forall in HF. specialize (HF _ Ea). cbn [fst snd] in HF.
+      unfold hs_u in Eh. unfold hs_s. unfold field_ty in HF.
+      destruct (assoc (cd_types cd) (f_name f)) as [ft|].
+      - eapply IH; eassumption.
+      - inversion HF; subst. match goal with X : atomic _ = true |- _ => rewrite (by_class_atomic n _ _ X Eh) end. reflexivity. }
+    rewrite H_tuple in Hu. destruct (c_tuple cfgS) eqn:Etup.
+    { (* tuple strategy *)
+      destruct (un_interp_tuple val hs_u (cd_fields cd) i) as [tt| |] eqn:Eg; cbn [bind] in Hu; try discriminate.
+      inversion Hu; subst u. clear Hu.
+      assert (H_hu : forall f, In f (cd_fields cd) ->
+                hs_u (f_name f) (aval val VNone i f) = Ok (hu (f_name f) (aval val VNone i f))).
+      { intros f Hf. pose proof (un_interp_tuple_handlers val hs_u (cd_fields cd) i tt Eg f Hf) as (v & w & Ea & Eh).
+        rewrite (vals_ok val VNone (cd_fields cd) i Hkeys f Hf) in Ea. inversion Ea; subst v. unfold hu. now rewrite Eh. }
+      rewrite (un_interp_tuple_all val (cd_fields cd) i Hkeys VNone hs_u hu H_hu) in Eg. inversion Eg; subst tt. clear Eg.
+      assert (Hkw : c_tuple_kw cfgS = true) by (apply H_tuple_kw; first [exact Etup | reflexivity]). rewrite Hkw.
+      rewrite (class_rt_tuple val noK (cd_fields cd) (wf_alias _ _ _ _ W) (wf_name _ _ _ _ W) A_init A_conv i Hkeys VNone hs_s hu
+                 (fun f Hf => H_inv' f Hf (H_hu f Hf))); [|reflexivity].
+      rewrite andb_false_r. reflexivity. }
     destruct (un_gen val val_eqb (topt cfgS c) (fun _ => neutral) hs_u (cd_fields cd) i) as [dd| |] eqn:Eg; cbn [bind] in Hu; try discriminate.
     inversion Hu; subst u. clear Hu.
-    pose (hu := fun nm v => match hs_u nm v with Ok w => w | _ => VNone end).
-    assert (A_init : forall f, In f (cd_fields cd) -> f_init f = true) by (intros f Hf; now destruct (HA f Hf)).
-    assert (A_conv : forall f, In f (cd_fields cd) -> f_conv f = false) by (intros f Hf; now destruct (HA f Hf)).
     assert (H_hu : forall f, In f (cd_fields cd) ->
               hs_u (f_name f) (aval val VNone i f) = Ok (hu (f_name f) (aval val VNone i f))).
     { intros f Hf. unfold un_gen in Eg.
@@ -432,15 +467,8 @@ Proof.
     rewrite (un_gen_all val VNone (topt cfgS c) eq_refl eq_refl (cd_fields cd) W A_init i Hkeys hs_u hu H_hu val_eqb) in Eg.
     inversion Eg; subst dd. clear Eg.
     cbn [obj_of_val]. rewrite nkeys_skey.
-    match goal with |- context [tpl_interp_dict _ _ ?h _ _] => set (hs_s := h) end.
     assert (H_inv : forall f, In f (cd_fields cd) ->
-              hs_s (f_name f) (hu (f_name f) (aval val VNone i f)) = Ok (aval val VNone i f)).
-    { intros f Hf. pose proof (vals_ok val VNone (cd_fields cd) i Hkeys f Hf) as Ea. apply assoc_in in Ea.
-      rewrite Forall_forall in HF. specialize (HF _ Ea). cbn [fst snd] in HF.
-      pose proof (H_hu f Hf) as Eh. unfold hs_u in Eh. unfold hs_s. unfold field_ty in HF.
-      destruct (assoc (cd_types cd) (f_name f)) as [ft|].
-      - eapply IH; eassumption.
-      - inversion HF; subst. match goal with X : atomic _ = true |- _ => rewrite (by_class_atomic n _ _ X Eh) end. reflexivity. }
+              hs_s (f_name f) (hu (f_name f) (aval val VNone i f)) = Ok (aval val VNone i f)) by (intros f Hf; exact (H_inv' f Hf (H_hu f Hf))).
     rewrite HS_forbid. cbn [andb].
     assert (Of : t_forbid (topt cfgS c) = false) by (cbn; exact HS_forbid).
     destruct (c_gen cfgS); [destruct (c_dv cfgS)|].
@@ -609,7 +637,7 @@ Proof.
     match goal with X : e_class E c = Some _ |- _ => rename X into Hc end.
     match goal with X : map fst i = _ |- _ => rename X into Hkeys end.
     match goal with X : Forall _ i |- _ => rename X into HF end.
-    rewrite Hc. cbn [inst_fields]. rewrite HU_tuple. unfold nov.
+    rewrite Hc. cbn [inst_fields]. unfold nov.
     destruct (H_env c cd Hc) as (W & HA).
     assert (Ht : topt cfgU c = topt cfgS c) by (unfold topt; now rewrite HU_forbid, HS_forbid). rewrite Ht.
     match goal with |- context [un_gen _ _ _ _ ?h _ _] => set (hs_u := h) end.
@@ -625,7 +653,9 @@ Proof.
         - inversion Hv; subst. destruct (aval val VNone i f); try discriminate; [eexists; reflexivity|]. cbn [rt_type].
           destruct n; [cbn in Hn; lia|]. cbn [unstructure]. rewrite HU_gen. eexists; reflexivity. }
       destruct G as (w & Hw). unfold hu. now rewrite Hw. }
-    rewrite (un_gen_all val VNone (topt cfgS c) eq_refl eq_refl (cd_fields cd) W A_init i Hkeys hs_u hu H_hu val_eqb). eexists; reflexivity.
+    destruct (c_tuple cfgU).
+    + rewrite (un_interp_tuple_all val (cd_fields cd) i Hkeys VNone hs_u hu H_hu). eexists; reflexivity.
+    + rewrite (un_gen_all val VNone (topt cfgS c) eq_refl eq_refl (cd_fields cd) W A_init i Hkeys hs_u hu H_hu val_eqb). eexists; reflexivity.
   - (* NewType *)
     cbn [maxw] in Hm. cbn [tw] in Hn. apply IH; [assumption | exact (max_le_r _ _ _ Hm) | lia].
   - (* Annotated *)
